@@ -124,7 +124,7 @@ func buildWorld(c c18Case) (objs []runtime.Object, pvcNames map[string]bool) {
 	pvcNames = map[string]bool{}
 	mk := func(name string, replicas int, sel string, updating bool) *appsv1.StatefulSet {
 		s := &appsv1.StatefulSet{ObjectMeta: metav1.ObjectMeta{Name: name, Namespace: ns, Labels: map[string]string{"kvass": "shards"}},
-			Spec: appsv1.StatefulSetSpec{Replicas: i32(replicas), Selector: &metav1.LabelSelector{MatchLabels: map[string]string{"app": sel}}},
+			Spec:   appsv1.StatefulSetSpec{Replicas: i32(replicas), Selector: &metav1.LabelSelector{MatchLabels: map[string]string{"app": sel}}},
 			Status: appsv1.StatefulSetStatus{Replicas: int32(replicas), UpdatedReplicas: int32(replicas), ReadyReplicas: int32(replicas)}}
 		if updating {
 			s.Status.UpdatedReplicas = int32(replicas) - 1
